@@ -49,9 +49,12 @@ where
     ) -> Self {
         let from = from.min(stored_len);
         let to = to.min(stored_len);
+        // Lock order is pages -> mmap: the writer holds the pages lock while it flushes the
+        // page index through the mapping.
+        let pages = pages.read();
         Self {
             reader: region.create_reader(),
-            pages: pages.read(),
+            pages,
             page_buf: Vec::with_capacity(Self::PER_PAGE),
             page_buf_idx: Self::NO_PAGE,
             pos: from,
